@@ -79,6 +79,22 @@ func handlePeerMsg(sessionMap map[string][]interface{}, sessionReq map[string]re
 		}
 	default:
 	}
+	switch respFromPeer := content.(type) {
+	case *Response:
+		// a sender retries a Responses message until it is acknowledged, so the same
+		// response can arrive more than once: keep one per (dealer, responder)
+		if respFromPeer.Response != nil {
+			for _, rr := range sessionMap[sessionID] {
+				r, ok := rr.(*Response)
+				if ok && r.Response != nil {
+					if r.Index == respFromPeer.Index && r.Response.Index == respFromPeer.Response.Index {
+						return
+					}
+				}
+			}
+		}
+	default:
+	}
 	sessionMap[sessionID] = append(sessionMap[sessionID], content)
 	if len(sessionMap[sessionID]) == sessionReq[sessionID].numOfResps {
 		select {
